@@ -51,6 +51,10 @@ def run(ctx) -> None:
     ctx.reuse("C10.slot-order", c13.one_to_one)
     # aspirate and dispense take the tips in the same argument position and build the mask the same way
     ctx.reuse("C10.slot-order", c13.siblings)
+    # the i-th volume slot belongs to tip i in *this* command: the slots are filled from the command's own arguments, not from
+    # a template / list that lives longer than the call
+    for _name in ("evo_aspirate", "evo_dispense"):
+        ctx.reuse("C10.slot-order", c13.asp_template, _name)
     # the tips the caller gives to EvoWorklist.evo_wash are the tips the command is built from
     ctx.reuse("C10.aggregate", c13.wash_passthrough)
     # the record emitters hand the caller's tip to the validator as it was given (no default substituted for falsy values)
